@@ -8,9 +8,10 @@
   (no bound: 1..512 of the statement is a special case).
 -/
 import PV.Model.KeyDeriveLemmas
+import PV.Model.AeadNonceLemmas
 import PV.Generated.C04
 namespace PV.Props.C04
-open PV PV.Wire PV.KeyDerive
+open PV PV.Wire PV.KeyDerive PV.AeadNonce
 
 variable (h : Hash) (K : Int) (H sid : Bytes) (X : UInt8)
 
@@ -208,6 +209,61 @@ theorem kex_hashes_positive : ∀ p ∈ PV.Generated.C04.kexHashSizes, 0 < p.2 :
 theorem table_sizes_positive :
     (∀ ci ∈ PV.Generated.C04.cipherTable, 0 < ci.ivSize ∧ 0 < ci.keySize ∧ 0 < ci.blockSize) ∧
     (∀ mi ∈ PV.Generated.C04.macTable, 0 < mi.digestSize ∧ mi.size ≤ mi.digestSize) := by
+  decide +kernel
+
+/-! ## the IV that is actually used on the wire (AES-GCM) -/
+
+/-- **AST-derived fact** (regenerated from paramiko/packet.py on every run): in `send_message` and in
+    `read_message` the AEAD engine is called with the stored IV *before* the statement
+    `self.__iv = self._inc_iv_counter(self.__iv)`. -/
+theorem aead_order_generated :
+    PV.Generated.C04.aeadSendUseFirst = true ∧ PV.Generated.C04.aeadRecvUseFirst = true := by decide
+
+/-- every AEAD row of `_cipher_info` asks for a 12-byte IV (4 fixed + 8 counter bytes) -/
+theorem aead_rows_iv12 : ∀ ci ∈ PV.Generated.C04.cipherTable, ci.aead = true → ci.ivSize = 12 := by
+  decide +kernel
+
+/-- **Nonce sequence.**  With the statement order of the source, packet `k` (k = 0, 1, 2, …) after the
+    keys were installed is sealed (send) / opened (receive) with nonce `fixed ‖ (counter + k)` of the
+    installed IV — packet 0 with the installed IV itself (RFC 5647 section 7.1). -/
+theorem aead_nonce_sequence (iv : Bytes) (n : Nat) (h12 : iv.length = 12)
+    (hc : beVal (iv.drop 4) + n < 18446744073709551616) :
+    trace PV.Generated.C04.aeadSendUseFirst n iv = (List.range n).map (fun k => some (rfcNonce iv k)) ∧
+    trace PV.Generated.C04.aeadRecvUseFirst n iv = (List.range n).map (fun k => some (rfcNonce iv k)) := by
+  rw [aead_order_generated.1, aead_order_generated.2]
+  exact ⟨trace_rfc n iv h12 hc, trace_rfc n iv h12 hc⟩
+
+/-- the statement-order fact of the site that handles direction `d` -/
+def siteUseFirst : Dir → Bool
+  | .outbound => PV.Generated.C04.aeadSendUseFirst
+  | .inbound => PV.Generated.C04.aeadRecvUseFirst
+
+/-- **The IV used on the wire is the derived IV.**  For every AEAD cipher of the table, either role,
+    either direction: the nonces of the packets protected under new keys are
+    `rfcNonce (RFC 4253 §7.2 IV for the direction's letter, 12 bytes) k`, k counting from 0. -/
+theorem aead_wire_nonces (hl : HashLaws h) (serverMode : Bool) (d : Dir) (nz : Negotiated) (n : Nat)
+    (hci : dirCipher d nz ∈ PV.Generated.C04.cipherTable) (ha : (dirCipher d nz).aead = true)
+    (hc : beVal ((rfcKey h K H sid (if c2s serverMode d then 65 else 66) 12).drop 4) + n < 18446744073709551616) :
+    let iv := (activateDir h K H sid serverMode d nz).iv
+    (activateDir h K H sid serverMode d nz).ivArg = some iv ∧
+    iv = rfcKey h K H sid (if c2s serverMode d then 65 else 66) 12 ∧
+    trace (siteUseFirst d) n iv = (List.range n).map (fun k => some (rfcNonce iv k)) := by
+  have h12 := aead_rows_iv12 _ hci ha
+  obtain ⟨r1, _, _, l1, _, _, _⟩ := activateDir_rfc h K H sid hl serverMode d nz
+  rw [h12] at r1 l1
+  have hseq := aead_nonce_sequence (activateDir h K H sid serverMode d nz).iv n l1 (by rw [r1]; exact hc)
+  refine ⟨?_, r1, ?_⟩
+  · cases d <;> simp [activateDir, activate, dirCipher] at ha ⊢ <;> simp [ha]
+  · cases d
+    · exact hseq.2
+    · exact hseq.1
+
+/-- what "increment before use" would do: the installed IV is never used (packet 0 gets IV+1) -/
+theorem increment_first_witness :
+    trace false 2 [1, 2, 3, 4, 0, 0, 0, 0, 0, 0, 0, 255]
+      = [some [1, 2, 3, 4, 0, 0, 0, 0, 0, 0, 1, 0], some [1, 2, 3, 4, 0, 0, 0, 0, 0, 0, 1, 1]] ∧
+    trace true 2 [1, 2, 3, 4, 0, 0, 0, 0, 0, 0, 0, 255]
+      = [some [1, 2, 3, 4, 0, 0, 0, 0, 0, 0, 0, 255], some [1, 2, 3, 4, 0, 0, 0, 0, 0, 0, 1, 0]] := by
   decide +kernel
 
 /-! ## non-vacuity -/
